@@ -44,13 +44,15 @@ var (
 	virt     multi // srcdir=relative/virtual/dir
 	inject   multi // srcfile=relative/dest/file (in-package test helpers)
 	fieldsF  multi // pkg|Type.field  or pkg|var
-	probesF  multi // pkg|recv.func|expr,expr
+	probesF  multi // pkg|recv.func|expr,expr  or  pkg|(*T).~(string)error|$1|eventname
+	resetF   multi // repo-relative package dirs that get a generated VerifReset()
 )
 
 type fieldProbe struct{ pkg, typ, field string }
 type funcProbe struct {
 	pkg, fn string
 	exprs   []string
+	alias   string // event name to report (default: the function's name)
 }
 
 func die(code int, f string, a ...interface{}) {
@@ -62,7 +64,8 @@ func main() {
 	flag.Var(&virt, "virtual", "srcdir=repo-relative virtual package dir (repeatable)")
 	flag.Var(&inject, "inject", "srcfile=repo-relative destination file (repeatable)")
 	flag.Var(&fieldsF, "field", "probed plain shared field: pkg|Type.field or pkg|var (repeatable)")
-	flag.Var(&probesF, "probe", "function probe: pkg|(*T).f|expr,expr (repeatable)")
+	flag.Var(&probesF, "probe", "function probe: pkg|(*T).f|expr,expr or, by signature, pkg|(*T).~(string)error|$1|eventname (repeatable)")
+	flag.Var(&resetF, "resetpkg", "repo-relative package dir: generate VerifReset() re-initialising every package-level variable (repeatable)")
 	flag.Parse()
 	if *out == "" {
 		die(2, "-out required")
@@ -139,6 +142,9 @@ func instrument(overlay map[string]string) {
 		if len(parts) > 2 && parts[2] != "" {
 			p.exprs = strings.Split(parts[2], ",")
 		}
+		if len(parts) > 3 {
+			p.alias = parts[3]
+		}
 		pps = append(pps, p)
 	}
 	var patterns []string
@@ -179,10 +185,21 @@ func instrument(overlay map[string]string) {
 		// The tree does not type-check: not something the checker can judge.
 		die(2, "packages do not type-check")
 	}
+	resetPkgs := map[string]bool{}
+	for _, rp := range resetF {
+		resetPkgs[modPath+"/"+rp] = true
+	}
+	probeHits := map[string]int{}
 	for _, p := range pkgs {
+		var resetFns []string
 		for i, f := range p.Syntax {
+			if resetPkgs[p.PkgPath] {
+				if fn := addResetFunc(p.Fset, f, i); fn != "" {
+					resetFns = append(resetFns, fn)
+				}
+			}
 			name := p.CompiledGoFiles[i]
-			r := &rewriter{pkg: p, file: f, fset: p.Fset, fields: fps, probes: pps, shimExec: shimExec[p.PkgPath]}
+			r := &rewriter{pkg: p, file: f, fset: p.Fset, fields: fps, probes: pps, shimExec: shimExec[p.PkgPath], probeHits: probeHits}
 			r.run()
 			var buf bytes.Buffer
 			if err := format.Node(&buf, p.Fset, f); err != nil {
@@ -199,16 +216,152 @@ func instrument(overlay map[string]string) {
 			}
 			overlay[name] = dst
 		}
+		if resetPkgs[p.PkgPath] && len(p.CompiledGoFiles) > 0 {
+			// the generated entry point: every package-level variable back to its declared initial value
+			var b bytes.Buffer
+			fmt.Fprintf(&b, "//go:build verif\n\npackage %s\n\nimport \"reflect\"\n\nfunc verifZero(p interface{}) {\n\tv := reflect.ValueOf(p).Elem()\n\tv.Set(reflect.Zero(v.Type()))\n}\n\n// VerifReset re-initialises the package-level state between explored executions (generated).\nfunc VerifReset() {\n", p.Name)
+			for _, fn := range resetFns {
+				fmt.Fprintf(&b, "\t%s()\n", fn)
+			}
+			b.WriteString("}\n")
+			dir := filepath.Dir(p.CompiledGoFiles[0])
+			rel, _ := filepath.Rel(*repo, dir)
+			dst := filepath.Join(*out, "src", rel, "zz_verif_reset_gen.go")
+			os.MkdirAll(filepath.Dir(dst), 0o755)
+			if err := os.WriteFile(dst, b.Bytes(), 0o644); err != nil {
+				die(2, "%v", err)
+			}
+			overlay[filepath.Join(dir, "zz_verif_reset_gen.go")] = dst
+		}
+	}
+	for _, pp := range pps {
+		if probeHits[pp.pkg+"|"+pp.fn] == 0 {
+			die(2, "function probe %s %s matches no function", pp.pkg, pp.fn)
+		}
+		if strings.Contains(pp.fn, ".~") && probeHits[pp.pkg+"|"+pp.fn] > 1 {
+			die(2, "function probe by signature %s %s matches %d functions", pp.pkg, pp.fn, probeHits[pp.pkg+"|"+pp.fn])
+		}
 	}
 }
 
+// addResetFunc appends to file f a function that assigns every package-level variable declared in f its
+// declared initial value again (the zero value when there is none) and returns the function's name.
+func addResetFunc(fset *token.FileSet, f *ast.File, idx int) string {
+	var stmts []ast.Stmt
+	src := func(e ast.Expr) ast.Expr {
+		var b bytes.Buffer
+		format.Node(&b, fset, e)
+		x, err := parser.ParseExpr(b.String())
+		if err != nil {
+			die(2, "reset: cannot re-parse %q: %v", b.String(), err)
+		}
+		return x
+	}
+	for _, d := range f.Decls {
+		gd, ok := d.(*ast.GenDecl)
+		if !ok || gd.Tok != token.VAR {
+			continue
+		}
+		for _, sp := range gd.Specs {
+			vs := sp.(*ast.ValueSpec)
+			var names []ast.Expr
+			for _, n := range vs.Names {
+				if n.Name != "_" {
+					names = append(names, ast.NewIdent(n.Name))
+				}
+			}
+			if len(names) != len(vs.Names) || len(names) == 0 {
+				continue
+			}
+			switch {
+			case len(vs.Values) == 0:
+				for _, n := range names {
+					stmts = append(stmts, &ast.ExprStmt{X: &ast.CallExpr{Fun: ast.NewIdent("verifZero"), Args: []ast.Expr{&ast.UnaryExpr{Op: token.AND, X: n}}}})
+				}
+			case len(vs.Values) == len(names):
+				for i, n := range names {
+					if isImmutableInit(vs.Values[i]) {
+						continue
+					}
+					stmts = append(stmts, &ast.AssignStmt{Lhs: []ast.Expr{n}, Tok: token.ASSIGN, Rhs: []ast.Expr{src(vs.Values[i])}})
+				}
+			default:
+				stmts = append(stmts, &ast.AssignStmt{Lhs: names, Tok: token.ASSIGN, Rhs: []ast.Expr{src(vs.Values[0])}})
+			}
+		}
+	}
+	if len(stmts) == 0 {
+		return ""
+	}
+	name := fmt.Sprintf("verifReset%d", idx)
+	f.Decls = append(f.Decls, &ast.FuncDecl{Name: ast.NewIdent(name), Type: &ast.FuncType{Params: &ast.FieldList{}}, Body: &ast.BlockStmt{List: stmts}})
+	return name
+}
+
+// isImmutableInit: initialisers whose value is never modified afterwards need no re-initialisation
+// (compiled regular expressions: recompiling them in every explored execution only costs time).
+func isImmutableInit(e ast.Expr) bool {
+	if c, ok := e.(*ast.CallExpr); ok {
+		if sel, ok := c.Fun.(*ast.SelectorExpr); ok {
+			if x, ok := sel.X.(*ast.Ident); ok && x.Name == "regexp" && (sel.Sel.Name == "MustCompile" || sel.Sel.Name == "MustCompilePOSIX") {
+				return true
+			}
+		}
+	}
+	return false
+}
+
 func parseExpr(s string) (ast.Expr, error) { return parser.ParseExpr(s) }
+
+// signature renders a function's parameter and result types as "(t1,t2)r1,r2".
+func (r *rewriter) signature(fd *ast.FuncDecl) string {
+	list := func(fl *ast.FieldList) string {
+		var ts []string
+		if fl != nil {
+			for _, f := range fl.List {
+				var b bytes.Buffer
+				format.Node(&b, r.fset, f.Type)
+				n := len(f.Names)
+				if n == 0 {
+					n = 1
+				}
+				for i := 0; i < n; i++ {
+					ts = append(ts, b.String())
+				}
+			}
+		}
+		return strings.Join(ts, ",")
+	}
+	return "(" + list(fd.Type.Params) + ")" + list(fd.Type.Results)
+}
+
+// paramName returns the name of the n-th parameter (1-based), giving it one if it is anonymous.
+func (r *rewriter) paramName(fd *ast.FuncDecl, n int) string {
+	k := 0
+	for _, f := range fd.Type.Params.List {
+		if len(f.Names) == 0 {
+			f.Names = []*ast.Ident{ast.NewIdent(fmt.Sprintf("verifArg%d", k+1))}
+		}
+		for _, id := range f.Names {
+			k++
+			if k == n {
+				if id.Name == "_" {
+					id.Name = fmt.Sprintf("verifArg%d", k)
+				}
+				return id.Name
+			}
+		}
+	}
+	die(2, "probe: %s has no parameter %d", fd.Name.Name, n)
+	return ""
+}
 
 type rewriter struct {
 	sleepLoop  map[*ast.CallExpr]string
 	cleanLoops map[*ast.ForStmt]string
 	skipRecv map[*ast.UnaryExpr]bool
 	pkg      *packages.Package
+	probeHits map[string]int
 	file     *ast.File
 	fset     *token.FileSet
 	fields   []fieldProbe
@@ -382,10 +535,27 @@ func (r *rewriter) run() {
 			name = "(" + b.String() + ")." + name
 		}
 		for _, p := range r.probes {
-			if p.pkg == r.pkg.PkgPath && p.fn == name {
+			match := p.pkg == r.pkg.PkgPath && p.fn == name
+			if !match && p.pkg == r.pkg.PkgPath && strings.Contains(p.fn, ".~") {
+				// by signature: "(*T).~(string)error" = the unexported method of *T with exactly these parameter and result types
+				k := strings.Index(p.fn, ".~")
+				match = strings.HasPrefix(name, p.fn[:k]+".") && !fd.Name.IsExported() && r.signature(fd) == p.fn[k+2:]
+			}
+			if match {
+				if r.probeHits != nil {
+					r.probeHits[p.pkg+"|"+p.fn]++
+				}
+				evName := fd.Name.Name
+				if p.alias != "" {
+					evName = p.alias
+				}
 				var args []ast.Expr
-				args = append(args, &ast.BasicLit{Kind: token.STRING, Value: strconv.Quote(fd.Name.Name)})
+				args = append(args, &ast.BasicLit{Kind: token.STRING, Value: strconv.Quote(evName)})
 				for _, e := range p.exprs {
+					if strings.HasPrefix(e, "$") { // $n: the n-th parameter, whatever it is called
+						n, _ := strconv.Atoi(e[1:])
+						e = r.paramName(fd, n)
+					}
 					x, err := parseExpr(e)
 					if err != nil {
 						die(2, "probe expr %q: %v", e, err)
